@@ -24,6 +24,7 @@ import (
 	"time"
 
 	"github.com/opencontainers/go-digest"
+	"github.com/opencontainers/image-spec/specs-go"
 	ocispec "github.com/opencontainers/image-spec/specs-go/v1"
 	"oras.land/oras-go/v2/content"
 	"oras.land/oras-go/v2/content/file"
@@ -65,6 +66,10 @@ type Scenario struct {
 	// after it took its snapshot of the reference map (resolver.Map), then operation 2 to its end, then the rest -
 	// the window in which a save of index.json works from a stale snapshot
 	Policy string `json:"policy,omitempty"`
+	// Twin: a crafted layout in which the bytes of an image manifest are referenced twice below one root - as a manifest
+	// (through an index) and as an opaque layer of an artifact - garbage-collected so that index.json lists the root
+	// only, then reopened. "opaque" / "manifest": which of the two references the traversal meets first.
+	Twin string `json:"twin,omitempty"`
 }
 
 var refs = []string{"t1", "t2", "v1.0"}
@@ -361,8 +366,109 @@ func guarded(f func() error) error {
 	}
 }
 
+// orderFS delays the first Open of one path until another path has been opened (plus a moment for its reader to go on).
+type orderFS struct {
+	fs.FS
+	mu     sync.Mutex
+	first  string // this path ...
+	then   string // ... before this one
+	opened bool
+}
+
+func (o *orderFS) Open(name string) (fs.File, error) {
+	if name == o.then {
+		for i := 0; i < 400; i++ { // at most 200 ms
+			o.mu.Lock()
+			ok := o.opened
+			o.mu.Unlock()
+			if ok {
+				time.Sleep(20 * time.Millisecond)
+				break
+			}
+			time.Sleep(500 * time.Microsecond)
+		}
+	}
+	f, err := o.FS.Open(name)
+	if name == o.first {
+		o.mu.Lock()
+		o.opened = true
+		o.mu.Unlock()
+	}
+	return f, err
+}
+
+// runTwin builds the twin layout through the store, collects the garbage (index.json then lists the tagged root only),
+// reopens it and records the predecessors of the manifest's config and layer: exactly the manifest, whichever reference
+// to its bytes the traversal sees first.
+func runTwin(t *testing.T, sc *Scenario, tr *vh.Tracer, base string) {
+	ctx := context.Background()
+	dir, _ := os.MkdirTemp(base, "tw")
+	defer os.RemoveAll(dir)
+	st, err := oci.New(dir)
+	if err != nil {
+		t.Fatal(err)
+	}
+	type blob struct {
+		d ocispec.Descriptor
+		b []byte
+	}
+	mk := func(mt string, b []byte) blob { return blob{content.NewDescriptorFromBytes(mt, b), b} }
+	js := func(v any) []byte { b, _ := json.Marshal(v); return b }
+	cfg := mk(ocispec.MediaTypeImageConfig, []byte(fmt.Sprintf(`{"architecture":"amd64","os":"linux","twin":%d}`, sc.ID)))
+	layer := mk(ocispec.MediaTypeImageLayer, []byte(fmt.Sprint("twin layer ", sc.ID)))
+	man := mk(ocispec.MediaTypeImageManifest, js(ocispec.Manifest{Versioned: specs.Versioned{SchemaVersion: 2}, MediaType: ocispec.MediaTypeImageManifest,
+		Config: cfg.d, Layers: []ocispec.Descriptor{layer.d}}))
+	opaque := ocispec.Descriptor{MediaType: "application/octet-stream", Digest: man.d.Digest, Size: man.d.Size}
+	art := mk(ocispec.MediaTypeImageManifest, js(ocispec.Manifest{Versioned: specs.Versioned{SchemaVersion: 2}, MediaType: ocispec.MediaTypeImageManifest,
+		ArtifactType: "application/vnd.verif.bundle", Config: ocispec.DescriptorEmptyJSON, Layers: []ocispec.Descriptor{opaque}}))
+	empty := blob{ocispec.DescriptorEmptyJSON, ocispec.DescriptorEmptyJSON.Data}
+	inner := mk(ocispec.MediaTypeImageIndex, js(ocispec.Index{Versioned: specs.Versioned{SchemaVersion: 2}, MediaType: ocispec.MediaTypeImageIndex,
+		Manifests: []ocispec.Descriptor{man.d}}))
+	root := mk(ocispec.MediaTypeImageIndex, js(ocispec.Index{Versioned: specs.Versioned{SchemaVersion: 2}, MediaType: ocispec.MediaTypeImageIndex,
+		Manifests: []ocispec.Descriptor{art.d, inner.d}}))
+	for _, x := range []blob{cfg, layer, empty, man, art, inner, root} {
+		if err := st.Push(ctx, x.d, bytes.NewReader(x.b)); err != nil && !errors.Is(err, errdef.ErrAlreadyExists) {
+			t.Fatalf("twin: push: %v", err)
+		}
+	}
+	if err := st.Tag(ctx, root.d, "root"); err != nil {
+		t.Fatal(err)
+	}
+	if err := st.GC(ctx); err != nil {
+		t.Fatalf("twin: GC: %v", err)
+	}
+	pathOf := func(d ocispec.Descriptor) string {
+		return "blobs/" + d.Digest.Algorithm().String() + "/" + d.Digest.Encoded()
+	}
+	ofs := &orderFS{FS: os.DirFS(dir), first: pathOf(art.d), then: pathOf(inner.d)}
+	if sc.Twin == "manifest" {
+		ofs.first, ofs.then = pathOf(inner.d), pathOf(art.d)
+	}
+	tr.Begin(sc.ID)
+	ro, err := oci.NewFromFS(ctx, ofs)
+	if err != nil {
+		tr.Emit(map[string]any{"e": "twin", "opened": false, "predcfg": []string{}, "predlayer": []string{}, "want": "M", "first": sc.Twin})
+		return
+	}
+	names := map[digest.Digest]string{man.d.Digest: "M", art.d.Digest: "A", inner.d.Digest: "I", root.d.Digest: "R"}
+	preds := func(d ocispec.Descriptor) []string {
+		out := []string{}
+		ps, _ := ro.Predecessors(ctx, d)
+		for _, p := range ps {
+			out = append(out, names[p.Digest])
+		}
+		sort.Strings(out)
+		return out
+	}
+	tr.Emit(map[string]any{"e": "twin", "opened": true, "predcfg": preds(cfg.d), "predlayer": preds(layer.d), "want": "M", "first": sc.Twin})
+}
+
 // RunOne executes one history; returns false when the store hung.
 func RunOne(t *testing.T, sc *Scenario, tr *vh.Tracer, base string) bool {
+	if sc.Twin != "" {
+		runTwin(t, sc, tr, base)
+		return true
+	}
 	g, err := vh.Build(sc.Nodes, fmt.Sprint("s", sc.ID))
 	if err != nil {
 		t.Fatal(err)
@@ -947,6 +1053,11 @@ func TestDrive(t *testing.T) {
 			run(sc)
 		}
 	} else {
+		if strings.Contains(","+strings.Join(kinds, ",")+",", ",oci,") {
+			for _, first := range []string{"opaque", "manifest", "opaque", "manifest"} {
+				run(Scenario{Kind: "oci", Ops: []Op{}, Twin: first})
+			}
+		}
 		for i := 0; i < count && hangs < 3; i++ {
 			run(genScenario(rng, kinds[i%len(kinds)]))
 		}
